@@ -30,10 +30,10 @@ JOBS = int(os.environ.get("VERIF_GO_JOBS", "12"))
 MODE = {"C01": "c01", "C02": "c02", "C27": "c27"}
 
 ALL_EDITS = ["AddMsg", "AddEnum", "AddVal", "AddFld", "AddMap", "AddOneof", "AddExt", "AddSvc", "AddMtd",
-             "AddImport", "AddRange", "AddRName", "AddDflt", "AddJson"]
-SMALL_EDITS = ["AddVal", "AddImport", "AddRange", "AddRName", "AddDflt", "AddJson"]
+             "AddImport", "AddRange", "AddRName", "AddDflt", "AddJson", "AddAliasVal", "AddDep", "AddGroup"]
+SMALL_EDITS = ["AddVal", "AddImport", "AddRange", "AddRName", "AddDflt", "AddJson", "AddGroup"]
 ALL_MUTS = ["SetNum", "SetLabel", "Retarget", "SetSyntax", "SetName", "SetPkg", "SetValNum", "DropLeaf",
-            "SetMapKey", "SetDflt"]
+            "SetMapKey", "SetDflt", "DropAlias", "SetImpKind"]
 
 
 ALL_KINDS = ["message", "enum", "value", "oneof", "field", "ext", "service", "method"]
@@ -74,14 +74,15 @@ CHECK_DEADLOCK FALSE
 # every named rule of ProtoValid!Broken; a tier that exports no mutant for one of them is vacuous for it
 ALL_RULES = ["V-import-exists", "V-import-dup", "V-import-cycle", "V-dup-symbol", "V-pkg-symbol",
              "V-p2-label-missing", "V-p3-required", "V-ed-optional", "V-ed-required", "V-oneof-label", "V-map-label",
-             "V-map-in-oneof", "V-ext-required", "V-num-positive", "V-num-max", "V-num-impl-reserved", "V-num-dup",
+             "V-map-in-oneof", "V-ext-required", "V-p3-group", "V-ed-group", "V-num-positive", "V-num-max", "V-num-impl-reserved", "V-num-dup",
              "V-num-reserved", "V-name-reserved", "V-num-in-extrange", "V-range-overlap", "V-p3-extrange", "V-rname-dup",
              "V-enum-empty", "V-enum-first-zero", "V-enum-dup-num", "V-oneof-empty", "V-map-key", "V-p3-default",
-             "V-default-repeated", "V-default-type", "V-default-message", "V-default-enum-value", "V-json-conflict",
+             "V-default-repeated", "V-default-type", "V-default-message", "V-default-enum-value", "V-default-enum-ident",
+             "V-json-conflict",
              "V-ref-resolve", "V-ref-kind", "V-ext-range", "V-ext-dup", "V-p3-ext", "V-closed-enum-implicit"]
 QUICK_UNCOVERED = ["V-p3-ext"]     # needs an AddExt mutant (thorough only)
 
-SMALL_BASES = ["p2", "p3", "ed", "p2p2", "p3p2", "p2p3", "edp2", "p3p3"]
+SMALL_BASES = ["p2", "p3", "ed", "p2p2", "p3p2", "p2p3", "edp2", "p3p3", "p2pub", "p3pub"]
 RICH_BASES = ["R2", "R3", "RE"]
 
 
@@ -107,7 +108,12 @@ def runs(tier, pid):
             ("sim-deep", c(SMALL_BASES + RICH_BASES, ["none", "a", "ab"], 5), 30, 7, 1.0, 1.0),
         ]
         return out[1:] if pid == "C02" else out     # rich-mut without mutations is just the three bases
-    sb = SMALL_BASES[vf.seed() % len(SMALL_BASES)]
+    k = vf.seed() % len(SMALL_BASES)
+    sb = SMALL_BASES[k]
+    if pid == "C02":
+        # valid workspaces only: two small bases (rotating with the seed) grown by one edit, plus the rich bases
+        two = [SMALL_BASES[(k + i * 5) % len(SMALL_BASES)] for i in range(2)]
+        return [("rich+2small-1edit", c(RICH_BASES + two, ["a"], 1, grow=two), None, None, 1.0, 1.0)]
     return [
         ("rich-mut+small", c(RICH_BASES + [sb], ["a"], 1, grow=[sb], mutbases=RICH_BASES,
                              wide=["message", "enum", "service"]),
@@ -207,7 +213,7 @@ def _run_one(pid, wd, binary, name, cfgtext, sim, depth, keep_valid, keep_mut, r
     with open(os.path.join(wd, cfgname), "w") as fh:
         fh.write(cfgtext)
     p, fo, fe, outp, errp = _start_driver(binary, MODE[pid], wd, name, extra)
-    cnt = {"seen": 0, "sent": 0, "valid": 0, "mutants": 0}
+    cnt = {"seen": 0, "sent": 0, "valid": 0, "mutants": 0, "rules": {}}
     seen = set()
 
     def sink(o):
@@ -223,8 +229,12 @@ def _run_one(pid, wd, binary, name, cfgtext, sim, depth, keep_valid, keep_mut, r
         else:
             cnt["mutants"] += 1
             keep = keep_mut
+            rule = "+".join(sorted(o.get("broken") or []))
+            cnt["rules"][rule] = cnt["rules"].get(rule, 0) + 1
             if pid == "C02":
                 return          # C02 is about accepted workspaces only
+            if cnt["rules"][rule] <= 2:
+                keep = 1.0      # sampling never drops a rule entirely
         if keep < 1.0 and rng.random() >= keep:
             return
         cnt["sent"] += 1
@@ -274,6 +284,7 @@ def run(pid, tier, replay=None):
     verdict = vf.Verdict(pid)
     rng = random.Random(vf.seed())
     total, bounds = {}, []
+    exported_rules = {}
     states = trans = 0
     nontrivial = distinct = 0
 
@@ -299,6 +310,8 @@ def run(pid, tier, replay=None):
             r, cnt, stats, mism = _run_one(pid, wd, binary, name, cfgtext, sim, depth, kv, km, rng)
             absorb(mism)
             _merge(total, stats)
+            for k, v in cnt["rules"].items():
+                exported_rules[k] = exported_rules.get(k, 0) + v
             states += r.distinct
             trans += r.generated
             nontrivial = max(nontrivial, stats.get("distinct_nontrivial", 0))
@@ -318,7 +331,7 @@ def run(pid, tier, replay=None):
             bounds.append({"run": "selftest-corrupt", "mismatches_reported": len(mism2)})
         if pid != "C02":
             want = [r for r in ALL_RULES if tier == "thorough" or r not in QUICK_UNCOVERED]
-            missing = [r for r in want if not (total.get("rules") or {}).get(r)]
+            missing = [r for r in want if not exported_rules.get(r)]
             if missing:
                 raise vf.MachineryError("vacuous for rule(s) %s: no mutant breaking exactly that rule was exported" % missing)
         if pid == "C02":
@@ -333,7 +346,7 @@ def run(pid, tier, replay=None):
         "evaluations": total.get("evaluations", 0),
         "real_compiles": total.get("compiles", 0),
         "valid_cases": total.get("valid_cases", 0), "mutant_cases": total.get("invalid_cases", 0),
-        "mutants_by_broken_rule": total.get("rules", {}),
+        "mutants_by_broken_rule": total.get("rules", {}), "mutants_exported_by_rule": exported_rules,
         "distinct_nontrivial": nontrivial, "distinct_feature_vectors": distinct,
         "rule": RULE,
         "outcomes": total.get("outcomes", {}), "skipped": total.get("skipped", {}),
